@@ -34,13 +34,16 @@ ASSUMPTIONS = ["instruction granularity: an eBPF instruction (incl. the "
                "during the run"]
 MIN_EVALUATIONS = {"quick": 500, "thorough": 20000}
 FMTS = ["i", "I", "q", "Q", "x"]
-AMOUNTS = ["const", "negconst", "isub", "reg", "expr", "fixedconst"]
+AMOUNTS = ["const", "negconst", "isub", "reg", "expr", "fixedconst",
+           "isubreg", "isubexpr", "var_i", "isubvar_i", "var_I", "regw",
+           "isubregw", "isubfixedconst", "var_q", "local_i"]
+FIXED_ONLY = ("fixedconst", "isubfixedconst")
 KINDS = ["array", "dict", "local", "percpu"]
 
 
 def plan(tier, seed):
     combos = [(f, k, a) for f in FMTS for k in KINDS for a in AMOUNTS
-              if not (a == "fixedconst" and f != "x")]
+              if not (a in FIXED_ONLY and f != "x")]
     n = 16
     shards = [dict(seed=seed, shard=i, combos=combos[i::n], tier=tier)
               for i in range(n)]
@@ -60,6 +63,10 @@ def build(fmt, kind, amount, amount_value):
     ns = {"license": "GPL", "m": ArrayMap()}
     m = ns["m"]
     ns["amt"] = m.globalVar("q")
+    ns["amt_i"] = m.globalVar("i")
+    ns["amt_I"] = m.globalVar("I")
+    if amount == "local_i":
+        ns["lamt"] = LocalVar("i")
     ns["out"] = m.globalVar("Q")
     ns["cellinit"] = m.globalVar("Q")
     if kind == "array":
@@ -82,8 +89,12 @@ def build(fmt, kind, amount, amount_value):
 
     def program(self):
         e = self
-        if amount in ("reg", "expr"):
+        if amount in ("reg", "expr", "isubreg", "isubexpr"):
             e.sr8 = e.amt
+        if amount in ("regw", "isubregw"):
+            e.w8 = e.amt_I
+        if amount == "local_i":
+            e.lamt = e.amt_i
         target = None
         if kind == "dict":
             e.d.key.k = 7
@@ -110,6 +121,26 @@ def build(fmt, kind, amount, amount_value):
                 cur += e.sr8 * 3 + 1
             elif amount == "fixedconst":
                 cur += 1.5
+            elif amount == "isubfixedconst":
+                cur -= 1.5
+            elif amount == "isubreg":
+                cur -= e.sr8
+            elif amount == "isubexpr":
+                cur -= e.sr8 * 3 + 1
+            elif amount == "var_i":
+                cur += e.amt_i
+            elif amount == "isubvar_i":
+                cur -= e.amt_i
+            elif amount == "var_I":
+                cur += e.amt_I
+            elif amount == "var_q":
+                cur += e.amt
+            elif amount == "regw":
+                cur += e.w8
+            elif amount == "isubregw":
+                cur -= e.w8
+            elif amount == "local_i":
+                cur += e.lamt
             setattr(obj, name, cur)
         if kind == "dict":
             do(value, "c")
@@ -143,6 +174,20 @@ def amount_raw(fmt, amount, amount_value, amt_in):
         d = amt_in * 3 + 1
     elif amount == "fixedconst":
         return 150000
+    elif amount == "isubfixedconst":
+        return -150000
+    elif amount == "isubreg":
+        d = -amt_in
+    elif amount == "isubexpr":
+        d = -(amt_in * 3 + 1)
+    elif amount in ("var_i", "var_q", "local_i"):
+        d = amt_in
+    elif amount == "isubvar_i":
+        d = -amt_in
+    elif amount in ("var_I", "regw"):
+        d = amt_in & 0xffffffff
+    elif amount == "isubregw":
+        d = -(amt_in & 0xffffffff)
     return d * FB if fmt == "x" else d
 
 
@@ -233,6 +278,10 @@ def explore(fmt, kind, amount, res, rng, tier):
                     m[:] = bytes(len(m))
                     pos = e.__dict__["amt"]
                     m[pos:pos + 8] = struct.pack("<q", amt_in)
+                    pos = e.__dict__["amt_i"]
+                    m[pos:pos + 4] = struct.pack("<i", amt_in)
+                    pos = e.__dict__["amt_I"]
+                    m[pos:pos + 4] = struct.pack("<I", amt_in & 0xffffffff)
                     pos = e.__dict__["cellinit"]
                     m[pos:pos + 8] = struct.pack("<Q", init)
                     vms = [ebpfvm.VM(mem, ebpfvm.Program(ld.code, f"i{i}"),
@@ -382,7 +431,10 @@ def stress(res, tier, rng):
     for fmt, kind, amount in [("I", "array", "const"), ("q", "array", "reg"),
                               ("Q", "dict", "const"), ("x", "array",
                                                        "fixedconst"),
-                              ("i", "dict", "isub"), ("Q", "array", "expr")]:
+                              ("i", "dict", "isub"), ("Q", "array", "expr"),
+                              ("q", "array", "isubreg"),
+                              ("Q", "dict", "isubvar_i"),
+                              ("I", "array", "isubexpr")]:
         amount_value, amt_in = 3, 5
         with kern.session() as sess:
             e, r, size = build(fmt, kind, amount, amount_value)
@@ -397,6 +449,10 @@ def stress(res, tier, rng):
                 m[:] = bytes(len(m))
                 pos = e.__dict__["amt"]
                 m[pos:pos + 8] = struct.pack("<q", amt_in)
+                pos = e.__dict__["amt_i"]
+                m[pos:pos + 4] = struct.pack("<i", amt_in)
+                pos = e.__dict__["amt_I"]
+                m[pos:pos + 4] = struct.pack("<I", amt_in & 0xffffffff)
                 mask = (1 << (8 * size)) - 1
                 init = rng.getrandbits(8 * size)
                 if kind == "array":
@@ -460,7 +516,7 @@ def run_shard(params):
 def finalize(res, tier, seed):
     c = res.counters
     missing = [f"{f}/{k}/{a}" for f in FMTS for k in ("array", "dict")
-               for a in AMOUNTS if not (a == "fixedconst" and f != "x")
+               for a in AMOUNTS if not (a in FIXED_ONLY and f != "x")
                and not c.get(f"schedules[{f}/{k}/{a}/2]")]
     res.info["shared_combinations_without_schedules"] = missing
     if missing:
